@@ -280,6 +280,11 @@ class DataFlow(FlowBase):
         kind = "leaked_variable" if b["expected"] == "$absent" else (
             "missing_variable" if b["offered"] == "$absent" else "wrong_value")
         sig = {"task_is_join": self.ref.d.is_join(offer["id"])}
+        if kind == "wrong_value":
+            ev, gv = b["expected"], b["offered"]
+            sig["offered_is_deep_merge_of_older_dict"] = bool(
+                isinstance(ev, dict) and isinstance(gv, dict) and set(ev) < set(gv)
+                and all(gv[k] == ev[k] for k in ev))
         if kind == "wrong_value" and run[2] is not None:
             # was the offered value an older version that the expected one superseded?
             binding = run[2].get(var)
